@@ -43,6 +43,8 @@ RULES = {
     "R4": "`for i in (a..b).rev() {` -> descending while loop",
     "R5": "consuming map iteration `for (k, v) in M {` -> `for (k__r, v__r) in M.iter() { let k = *k__r; let v = *v__r;` (M dead afterwards; value type made Copy in the assembled file, so the copy equals the moved value)",
     "R7": "error-constructor expression `ParseError::X {..}` -> opaque `mk_err()`",
+    "R17": "`E.parse::<T>()` -> stub `parse_T(E)` with an unconstrained result",
+    "R18": "`E.map_err(|_| C)?` -> `match E { Ok(v) => v, Err(_) => return Err(C) }`",
     "R9": "`E as <int>` -> `#[verifier::truncate] (E as <int>)` (Rust `as` is truncation)",
     "R10": "byte-string literal -> array literal of the same bytes",
     "R11": "`crate::a::b::X` / `super::X` / `Self::` path prefixes stripped or renamed for single-file assembly",
@@ -169,6 +171,37 @@ def apply_common_rules(text, ed, rules, log, where):
                 else:
                     ed.replace(toks[p2].start, toks[n1].end, f"{pre}_{toks[p2].text}_arr(")
                 log.append(("R14", where, text[toks[p2].start:toks[e].end][:80]))
+    if "R18" in rules:
+        # `E.map_err(|_| C)?` -> `(match E { Ok(v__) => v__, Err(_) => return Err(C) })` (same error type: `?` adds no conversion)
+        for i, t in enumerate(toks):
+            if t.kind == "ident" and t.text == "map_err":
+                p1 = prev_code(toks, i); n1 = next_code(toks, i)
+                if p1 is None or toks[p1].text != "." or toks[n1].text != "(": continue
+                e = match_forward(toks, n1)
+                q = next_code(toks, e)
+                if q is None or toks[q].text != "?": continue
+                a1 = next_code(toks, n1)
+                if toks[a1].text != "|": continue
+                a2 = next_code(toks, a1); a3 = next_code(toks, a2)
+                if toks[a2].text != "_" or toks[a3].text != "|": continue
+                st = _postfix_start(toks, prev_code(toks, p1))
+                ed.insert(toks[st].start, "(match ")
+                ed.replace(toks[p1].start, toks[a3].end, " { Ok(v__) => v__, Err(_) => return Err(")
+                ed.replace(toks[e].start, toks[q].end, ") })")
+                log.append(("R18", where, text[toks[st].start:toks[q].end][:100].replace("\n", " ")))
+    if "R17" in rules:
+        # `E.parse::<T>()` -> `parse_T(E)` (stub: body is the original call, contract is nondeterministic)
+        for i, t in enumerate(toks):
+            if t.kind == "ident" and t.text == "parse":
+                p1 = prev_code(toks, i)
+                n1 = next_code(toks, i)
+                if p1 is None or toks[p1].text != "." or toks[n1].text != "::": continue
+                n2 = next_code(toks, n1); n3 = next_code(toks, n2); n4 = next_code(toks, n3); n5 = next_code(toks, n4); n6 = next_code(toks, n5)
+                if toks[n2].text != "<" or toks[n4].text != ">" or toks[n5].text != "(" or toks[n6].text != ")": continue
+                st = _postfix_start(toks, prev_code(toks, p1))
+                ed.insert(toks[st].start, f"parse_{toks[n3].text}(")
+                ed.replace(toks[p1].start, toks[n6].end, ")")
+                log.append(("R17", where, text[toks[st].start:toks[n6].end][:80]))
     if "R9" in rules:
         _rule_r9(text, toks, ed, log, where)
     if "R10" in rules:
@@ -181,6 +214,46 @@ def apply_common_rules(text, ed, rules, log, where):
 
 
 _INT_TYPES = {"u8", "u16", "u32", "u64", "u128", "usize", "i8", "i16", "i32", "i64", "i128", "isize"}
+
+
+def _postfix_start(toks, p):
+    """index of the first token of the postfix/primary expression that ends at token p"""
+    start = p
+    while True:
+        x = toks[start]
+        if x.kind == "punct" and x.text in (")", "]"):
+            start = match_backward(toks, start)
+            q = prev_code(toks, start)
+            if q is not None and (toks[q].kind == "ident" and toks[q].text not in ("as", "in", "return", "if", "else", "match", "let", "mut", "while") or
+                                  toks[q].text in (")", "]", "?", ">")):
+                if toks[q].text == ">":
+                    # turbofish `::<T>`: skip back over the generic args
+                    depth = 0; k = q
+                    while k >= 0:
+                        if toks[k].kind == "punct" and toks[k].text == ">": depth += 1
+                        elif toks[k].kind == "punct" and toks[k].text == "<":
+                            depth -= 1
+                            if depth == 0: break
+                        k -= 1
+                    q2 = prev_code(toks, k)
+                    if q2 is not None and toks[q2].text == "::":
+                        start = prev_code(toks, q2); continue
+                    break
+                start = q; continue
+            break
+        if x.kind in ("ident", "num", "char", "str"):
+            q = prev_code(toks, start)
+            if q is not None and toks[q].text in (".", "::"):
+                r = prev_code(toks, q)
+                if r is None: break
+                start = r; continue
+            if q is not None and toks[q].text == "&" :
+                pass
+            break
+        if x.text == "?":
+            start = prev_code(toks, start); continue
+        break
+    return start
 
 
 def _rule_r9(text, toks, ed, log, where):
